@@ -42,6 +42,8 @@ class Ctx:
         self.paths = {}
         self.distinct = set()
         self.notes = []
+        self._vgroups = {}
+        self.unpredictable_prints = 0
 
     # ---- TLC on the spec -------------------------------------------------------------
     def mc(self, module, **kw):
@@ -93,16 +95,17 @@ class Ctx:
 
     def violation(self, site, clauses, tags, replay, what=None):
         n = len(self.violations)
-        if n < 50:
+        gk = (site, tuple(clauses))
+        self._vgroups[gk] = self._vgroups.get(gk, 0) + 1
+        if self._vgroups[gk] <= 3 and len(self._vgroups) <= 25:
             rdir = os.path.join(VERIF, 'replays')
             os.makedirs(rdir, exist_ok=True)
             path = os.path.join(rdir, '%s-%s-%03d.json' % (self.prop, self.tier, n))
             with open(path, 'w') as f:
                 json.dump({'property': self.prop, 'site': site, 'clauses': clauses, 'tags': tags,
                            'what': what, 'case': replay, 'seed': self.seed, 'tier': self.tier}, f, indent=1)
-            print('VIOLATION property=%s replay=%s' % (self.prop, path))
-            print('  site=%s clauses=%s tags=%s %s' % (site, clauses, tags, what or ''))
-            sys.stdout.flush()
+            out('VIOLATION property=%s replay=%s' % (self.prop, path))
+            out('  site=%s clauses=%s tags=%s %s' % (site, clauses, tags, what or ''))
         self.violations.append({'site': site, 'clauses': clauses, 'tags': tags})
 
     def canary(self, rejected_with_expected):
@@ -116,7 +119,7 @@ class Ctx:
                                  'clause' % tuple(self.canaries))
         for f in self.known:
             if f['id'] in self.known_seen:
-                print('KNOWN-FINDING: property=%s %s [%s; seen %d times]' % (
+                out('KNOWN-FINDING: property=%s %s [%s; seen %d times]' % (
                     self.prop, f['text'], f['id'], self.known_seen[f['id']]))
         wall = time.time() - self.t0
         cov = {
@@ -163,6 +166,34 @@ def _tag_ok(val, want):
             return False
         return True
     return val == want
+
+
+REAL_STDOUT = sys.stdout
+
+
+class _Sink:
+    """The implementation print()s 'unpredictable' on stdout; keep it away from the check's own output."""
+    def __init__(self):
+        self.lines = 0
+
+    def write(self, s):
+        self.lines += s.count('\n')
+        return len(s)
+
+    def flush(self):
+        pass
+
+
+SINK = _Sink()
+
+
+def capture_impl_stdout():
+    sys.stdout = SINK
+
+
+def out(msg):
+    REAL_STDOUT.write(msg + '\n')
+    REAL_STDOUT.flush()
 
 
 def log(msg):
